@@ -211,9 +211,11 @@ CHECKS = {
         "of every edge, bad stop bits), a mode-0 SPI device; start requests at literal instants relative to the divider phase "
         "incl. back-to-back and overlapping ones; cycle-exact timer/watchdog/PWM models; return to idle demanded. Sampling.",
    note="The I2C master is driven through its Wishbone registers against an open-drain bus with a slave model and a bus decoder "
-        "(legal START/STOP/bit sequences, programmed phase lengths, data/ack both ways, overlapping commands). SPISlave and the UART "
-        "FIFO/CSR wrapper are not covered. Known finding C19-F1 (SPI length read live). The +-2% UART tolerance is demanded for bit "
-        "periods >= 16 cycles.",
+        "(legal START/STOP/bit sequences, programmed phase lengths, data/ack both ways, overlapping commands). Further families: "
+        "'spislave' (SPISlave against a pin-level master with edge jitter), 'uart_full' (PHY + FIFOs + event manager behind a real "
+        "CSRBank, driven by a software model following LiteX's driver protocol; a third of the runs reprogram a dynamic-baudrate PHY), "
+        "'spimmap' (the SPI master of the memory-mapped SPI core, modes 0-3, against a pin-level slave), 'timeline'. Known finding "
+        "C19-F1 (SPI length read live). The +-2% UART tolerance is demanded for bit periods >= 16 cycles.",
    tech="deterministic simulation with pin-level peers on skewed clocks, phase/edge-resolution faults, overlapping commands, cycle-exact models"),
 }
 
